@@ -37,10 +37,17 @@ def run (j : Json) : Except String Json := do
   let rows := unpack fs 1
   let branching := fs.toList.any (fun f => f.childErrors.length > 1)
   let chained := fs.toList.any (·.noPy)
-  let holds := checkC05 evs errText rootError impl
+  let message := ((← j.getObjVal? "impl").getObjValAs? String "message").toOption
+  let tailOK := match message with
+    | some m => endsWithRootError errText rootError m
+    | none => true
+  let strFailed := match (← j.getObjVal? "impl").getObjVal? "str_failed" with
+    | .ok (.str _) => true
+    | _ => false
+  let holds := !strFailed && checkC05 evs errText rootError impl && tailOK
   let modelHolds := checkC05 evs errText rootError model
   return Json.mkObj [("agree", model == impl), ("holds", holds), ("model_holds", modelHolds), ("clauses", toJson (clausesC05 evs errText rootError impl)),
-    ("why", if holds then "" else "the trace does not begin with the root target / list the failing path in order / show the failing spec's target / show every failed branch"),
+    ("why", if holds then "" else if strFailed then "str(exc) raised: the error has no message" else if !tailOK then "the message does not end with the type and message of the original error" else "the trace does not begin with the root target / list the failing path in order / show the failing spec's target / show every failed branch"),
     ("model", Json.mkObj [("trace", model)]),
     ("branch", (if branching then "branching" else "linear") ++ (if chained then "+chain" else "") ++
                s!"-rows{rows.length}")]
